@@ -8,7 +8,7 @@ CHECKS = {
    text="Semaphore.tla is model-checked exhaustively by TLC (safety invariants and liveness under weak fairness, closed systems of up to 3 (quick) / 4 (thorough) threads, "
         "0-2 permits, guards released on the same or another thread, bounded spurious wake-ups). TLC-generated macro-step schedules are imposed on the real semaphore through "
         "cfg-guarded hook gates, the fine-grained hook events and hook-independent observer events (acquired/releasing, stuck threads, restoration probe) are recorded and "
-        "validated by TLC against the same specification. This is the right level because the property quantifies over interleavings.",
+        "validated by TLC against the same specification. This is the right level because the property quantifies over interleavings. The semaphores inside fclones are also observed while the repository's own 170 unit tests run (test binary built with the hooks): Trace_SemOpen.tla (open-system view, counter pinned by every event logged under the mutex) validates the throttle semaphores of rehash and the open-files semaphore, ~11 000 events with ~290 real sleeps.",
    note="std Mutex/Condvar semantics as modelled; OS choice of the woken waiter is observed, not forced; stuck = no progress for 2.5 s; schedules at macro-step grain",
    tech="TLC model checking + schedule replay into real code + TLC trace validation"),
  "C05": dict(cat="model_checking", sec="5 C05",
@@ -76,21 +76,21 @@ CHECKS = {
    tech="TLC model checking of the staged pipeline (Grouping.tla) + stage-by-stage trace validation + TLC-evaluated declarative spec as oracle + metamorphic root-spelling replay"),
  "C14": dict(cat="model_checking", sec="5 C14",
    text="StatsMatch (header = body, redundant/missing as defined through the sub-groups), SortedBySize, RootsTogether of GroupObs.tla evaluated by TLC on real reports; the text, JSON, CSV and fdupes "
-        "outputs of the same run are parsed by independent parsers and must describe the same groups with matching counts; -o FILE (pre-existing, longer file) must equal stdout; paths absolute.",
+        "outputs of the same run are parsed by independent parsers and must describe the same groups with matching counts; -o FILE (pre-existing, longer file) must equal stdout; paths absolute. A report must not contain foreign bytes: `group --transform` under the schedule in which the program's launch probe runs before it is killed (delayed kill in the interposer), in every output format.",
    note="content classes by direct comparison of the bytes; 128-bit hash collisions outside the property; seeded random trees around the stage thresholds (not exhaustive over sizes)",
    tech="TLC-evaluated declarative spec as oracle + cross-format comparison"),
  "C13": dict(cat="model_checking", sec="5 C13",
    text="Rehash.tla (device threads, throttle semaphore, pool workers, open-files permits, channel, collector) is model-checked by TLC for every interleaving: no deadlock (also with one-thread "
         "pools), termination under weak fairness, bounded in-flight tasks, and confluence (the collected map does not depend on the schedule). Hook events of real rehash invocations are validated "
         "by TLC against the task life cycle (Trace_Rehash). On the real binary a configuration matrix (repeated runs, thread-pool specifications, permutations of the roots, --stdin) must give "
-        "byte-identical report bodies, and hash function / prefix / suffix / device type / cache variations identical partitions, every run under a 60 s bound.",
+        "byte-identical report bodies, and hash function / prefix / suffix / device type / cache variations identical partitions, every run under a 60 s bound. The rehash invocations of the repository's own unit tests (built with the hooks) are validated against Trace_Rehash as well.",
    note="real schedules are sampled, the exhaustive part is on the model; with --isolate only the groups are compared under root permutation",
    tech="TLC model checking (safety + liveness) + hook trace validation + metamorphic replay of the configuration matrix"),
  "C12": dict(cat="model_checking", sec="5 C12",
    text="Cache.tla models the cache tables (key = file id + chunk, validation by mtime ms + length, one table per hash function / transform), arbitrary edits that respect the precondition "
         "(incl. inode reuse, kept or older mtimes, length-only changes), configuration switches and interrupted runs; TLC checks Sound (a valid entry is what an uncached run computes) "
         "for all histories up to the bound. Seeded histories are replayed on real files (ext4 and tmpfs, explicit mtimes) with a persistent private cache: after every step `group --cache` and "
-        "plain `group` must print identical report bodies; hook events count the cache hits (vacuity guard).",
+        "plain `group` must print identical report bodies; hook events count the cache hits (vacuity guard). The CacheLookup / CacheStore hook events of the same real runs are validated against Trace_Cache.tla (entries keyed by table, identity and chunk, remembering modification time, length and the content class at store time): every hit must be explained by an entry, ValidHit / Sound are evaluated on every hit, a miss must not have a valid entry.",
    note="precondition read as 'content is a function of (mtime ms, length) per file over the history' (see DESIGN.md 5.0)",
    tech="TLC model checking of the cache design + randomized history replay (cached vs uncached) on the real binary"),
  "C15": dict(cat="model_checking", sec="5 C15",
@@ -133,7 +133,7 @@ CHECKS = {
    text="Walk.tla states declaratively which entries the scan selects (depth as documented, hidden, ignore files that take effect where the walk enters, --follow-links / --symbolic-links, dangling "
         "links and cycles, --one-fs, several / nested / repeated roots); TLC evaluates Selected on the abstract description of seeded real trees and is the oracle for the real "
         "`group --rf-over 0 -f json` run with the same options: the selected path set must be equal and free of duplicates. Size and pattern predicates come from a reference matcher that is "
-        "checked against Glob.tla's TLC vectors in the same run.",
+        "checked against Glob.tla's TLC vectors in the same run. With --follow-links the ignore files of the route by which an entry is reached are in effect and an entry is selected if it passes on at least one route; trees with two routes to one directory under different ignore files are generated on purpose.",
    note="ignore rules limited to name, dir/ and *.ext; depth limits are not combined with --follow-links; one ignore file per directory; no hidden roots",
    tech="TLC-evaluated declarative spec (Walk.tla) as oracle for randomized real runs"),
 }
